@@ -24,14 +24,15 @@ NODE_IGNORE = ("apply", "undo", "toggle", "pos", "sync", "new", "clearlong")
 CONFIG = {
     "C01": {
         "sort_tags": ("gen",), "ignore_ops": NODE_IGNORE, "spec_tags": ("gen",), "sample_tags": ("gen",),
-        "rule": "every node of depth-limited trees under the curated corpus, of random legal walks and of random consistent set-ups; "
+        "rule": "every node of depth-limited trees under the curated corpus, of random legal walks and of consistent set-ups (two in five built around a pin, an en-passant line through the king, an attacked castling square or a corner promotion); "
                 "the implementation's move set from a cache-cleared generator is compared (as a set, duplicates kept) with the model's, which the runner "
                 "verifies against Rules.legal_moves on the same position; distinct = distinct move-set observations",
     },
     "C02": {
         "sort_tags": ("genl",), "sort_keep": {"genl": 2}, "ignore_ops": NODE_IGNORE, "spec_tags": ("genl",), "sample_tags": ("genl",),
-        "rule": "one long-lived generator per run is queried along trees, walks and transposition families; its move set and both attack maps "
-                "are compared with the model's cache-free answer for the position it was asked about",
+        "rule": "one long-lived generator per run is queried along trees, walks, transposition and en-passant-order families, revisits after an expired en-passant "
+                "opportunity or after lost castling rights, and promotion siblings; its move set and both attack maps are compared with the model's cache-free answer, and "
+                "plain / annotated / single-colour queries for both colours are compared on the spot with a cache-cleared generator (genlx, attl)",
     },
     "C03": {
         "ignore_ops": ("undo", "toggle", "new"), "spec_tags": ("snap", "apply"), "sample_tags": ("apply",),
@@ -98,8 +99,10 @@ CONFIG = {
     "C08": {
         "ignore_ops": ("pos", "sctx", "apply", "toggle", "undo"), "spec_tags": ("search", "sched", "watch"), "sample_tags": ("search",),
         "search_mode": "exact",
-        "rule": "(last_score, move) of alpha_beta_search vs a pruning-free, cache-free minimax computed by the extracted model (score equal; the move must be one whose own "
-                "minimax value equals it), depths 1..3, fresh contexts and one context reused along the successive searches of a game",
+        "rule": "(last_score, move) of alpha_beta_search vs the exact minimax of the extracted model (score equal; the move must be one whose own minimax value equals it; "
+                "plain minimax at depths 1-2, from depth 3 the full-window alpha-beta list proved equal to it), fresh contexts, one context reused along a game, across half-move "
+                "clocks 0..160, after a third registration and with either side to move; perturbed schedules with the cache-write observer; the score the real watch loop prints; "
+                "depth-5 searches of tiny endings and depth-6 searches of mating nets decided by a plain minimax inside the harness (searchx)",
     },
     "C09": {
         "ignore_ops": ("pos", "sctx"), "spec_tags": ("sched",), "sample_tags": ("sched",), "search_mode": "exact",
@@ -110,7 +113,7 @@ CONFIG = {
     },
     "C10": {
         "ignore_ops": ("pos",), "spec_tags": ("perft", "perft2", "snap", "clicount"), "sample_tags": ("perft", "clicount"),
-        "rule": "MoveGenerator::count_positions(depth) for depths 0..N in rayon pools of 1, 2, 4, 16 threads, with a cache-cleared and with a long-lived generator, vs the cumulative "
+        "rule": "MoveGenerator::count_positions(depth) for depths 0..N in rayon pools of 1..16 threads (every size 1..8 at depth 1), two counts started at once on two threads, a cache-cleared and a long-lived generator, the count-positions command-line driver, vs the cumulative "
                 "perft of the rules spec (sum over k = 1..depth+1 of the number of legal move sequences of length k)",
     },
     "C14": {
